@@ -94,6 +94,9 @@ def value(n):
     return s
 
 
+KEEP = []
+
+
 def run(ctx):
     from props.c18 import rand_tree
     rng = ctx.rng
@@ -103,6 +106,12 @@ def run(ctx):
     dist = {"edits": {}, "trees_with_shared_dicts": 0, "sizes": 0}
     for i in range(N):
         t = rand_tree(rng, maxdepth=rng.choice([0, 1, 2, 3]))
+        if rng.random() < 0.15:
+            # ids are caller-supplied strings: two different nodes of the tree may carry the same one (a fragment loaded twice)
+            ns_ = [x for _, x in gen.nodes_of(t)]
+            if len(ns_) >= 2:
+                for x in rng.sample(ns_, 2):
+                    x[0] = "same-id"
         impl.reset()
         root = build_shared(t, rng)
         if rng.random() < 0.15:
@@ -118,6 +127,8 @@ def run(ctx):
         # the registry state of the ORIGINAL is not part of the hypothesis: entries of some of its nodes may have been dropped
         # (delete_node_instance(id, children=False) on a node that stays in the tree, or a cleared store)
         unregistered = set()
+        if any(n.id == "same-id" for n in walk(root)):
+            unregistered.add("same-id")        # the registry can hold only one of two nodes with one id
         r = rng.random()
         if r < 0.12:
             for n in walk(root):
@@ -127,6 +138,11 @@ def run(ctx):
             unregistered = {n.id for n in walk(root)}
             Node.store.clear()
         ids_before = set(Node.store.keys()) | unregistered
+        if rng.random() < 0.3:
+            # an earlier copy of the same node is alive: ids must be fresh with respect to it as well
+            earlier = root.copy()
+            ids_before |= {n.id for n in walk(earlier)}
+            KEEP.append(earlier)
         cp = root.copy()
         after_orig = otree(root, tagmap)
         copy_t = otree(cp, tagmap)
